@@ -15,6 +15,8 @@ mod leaf;
 mod parser;
 mod pattern;
 mod util;
+#[cfg(feature = "verif_hooks")]
+pub mod verif;
 
 #[macro_use]
 #[allow(missing_docs)]
@@ -326,6 +328,9 @@ pub fn generate(input: TokenStream) -> TokenStream {
             return impl_logos(errors.render().unwrap());
         }
     };
+
+    #[cfg(feature = "verif_hooks")]
+    verif::capture(&graph, utf8_mode);
 
     debug!("Generated Automaton:\n{:?}", graph.dfa());
     debug!("Generated Graph:\n{graph}");
